@@ -75,6 +75,24 @@ def mk_cases(ctx):
 
     def rand_s():
         return "".join(r.choice(ALPHA) for _ in range(r.randint(0, 5)))
+    # sizes beyond 256 (small-int cache, 8-bit limits) and layouts with REPEATED equal runs (list.index / == on runs)
+    big = chunks_for((130, 0, 127, 3), alphabet=ALPHA, shift=1)          # 260 characters
+    rep = [("ab", {"fg": 34}), ("-", {"fg": 31}), ("ab", {"fg": 34}), ("-", {"fg": 31}), ("ab", {"fg": 34})]
+    for f in (big, rep):
+        n = sum(len(t) for t, _ in f)
+        bs = sorted({0, 1, 2, 3, 5, 127, 128, 129, 130, 131, 254, 255, 256, 257, 258, 259, n - 1, n, n + 1, n + 2} | {-k for k in (1, 2, 4, 5, 255, 256, 257, 258, n, n + 1, n + 2)})
+        bs = [b for b in bs if -n - 2 <= b <= n + 2]
+        for a in bs + [None]:
+            for b in bs + [None]:
+                cases.append(dict(op="slice", f=f, a=a, b=b))
+        for i in bs:
+            cases.append(dict(op="int", f=f, i=i))
+        cases.append(dict(op="add", f=f, g=rep))
+        cases.append(dict(op="add", f=rep, g=f))
+        cases.append(dict(op="mul", f=rep, n=60))
+        cases.append(dict(op="rmul", f=[("x", {"bold": True})], n=300))
+        cases.append(dict(op="join", sep=[(", ", {"fg": 34})], items=[("f", rep)] * 3 + [("s", "ab")] * 2))
+    cases.append(dict(op="join", sep=[(",", {})], items=[("s", "i")] * 300))
     for _ in range(1500 if ctx.thorough else 300):
         cases.append(dict(op="add", f=rand_f(), g=rand_f()))
         cases.append(dict(op="addstr", f=rand_f(), s=rand_s()))
